@@ -446,7 +446,7 @@ def sec_repeat_until(ctx, rng, case):
             sim = cirq.DensityMatrixSimulator(dtype=np.complex128, seed=rng_obj)
         return _records_key(sim.run(circuit, repetitions=1))
 
-    ex = SR.explore(run, max_paths=1200, min_branch=1e-9, min_path=1e-7, default_last=(exit_on == 1))
+    ex = SR.explore(run, max_paths=1200, min_branch=1e-9, min_path=1e-7, default_last=(exit_on == 1), default_first=(exit_on == 0))
     if ex.over_budget:
         ctx.event("explorer-over-budget")
         return
